@@ -18,7 +18,7 @@ from models.m_core import bytes_eq
 ID = 'C02'
 PROGRAMS = {'core': dict(crate='vaporetto', features=['train', 'kytea'])}
 UNIT_CAP = 300
-BUDGET_S = {'quick': 270, 'thorough': 2400}
+BUDGET_S = {'quick': 600, 'thorough': 1200}      # wall-clock safety caps (exceeding one is reported as inconclusive); typical quick runs take 1-200 s
 WIDTH_PATTERNS = {'1': [1], '3': [3], '14': [1, 4], '231': [2, 3, 1], '4': [4]}
 BOUNDS = {
     'quick': {'spans_chars': [1, 2, 3, 4, 5, 6], 'width_patterns': ['1', '3', '14'], 'n_tags': [0, 2], 'escape_chars': [1, 2, 3]},
